@@ -666,7 +666,19 @@ fn find_fn<'f>(file: &'f syn::File, src: &Src, it: &Item) -> Result<(Option<&'f 
                     }
                 }
             }
-            syn::Item::Fn(f) if it.impl_type.is_none() => {
+            syn::Item::Trait(t) if it.impl_type.is_none() && it.trait_.as_deref() == Some(&t.ident.to_string()) => {
+                // default method of a trait definition (rule E1: becomes an inherent method of the unit's type)
+                for ti in &t.items {
+                    if let syn::TraitItem::Fn(f) = ti {
+                        if f.sig.ident == it.name {
+                            if let Some(b) = &f.default {
+                                found.push((None, &f.attrs[..], &t.vis, &f.sig, b, f.span()));
+                            }
+                        }
+                    }
+                }
+            }
+            syn::Item::Fn(f) if it.impl_type.is_none() && it.trait_.is_none() => {
                 if f.sig.ident == it.name {
                     found.push((None, &f.attrs[..], &f.vis, &f.sig, &*f.block, f.span()));
                 }
